@@ -47,7 +47,7 @@ def one(args):
         os.environ["VERIF_REPO"] = tmp
         from gtirb_static.model import AnalysisError, Repo
         from gtirb_static.report import Check, load_known
-        from gtirb_static.rules.wellformed import check as wf
+        from gtirb_static.runner import run_rules
         known = load_known()
         out = []
         try:
@@ -56,9 +56,7 @@ def one(args):
             return patch, [("*", "EXIT2", "Repo", str(e), "")]
         for p in props:
             try:
-                chk = Check(p, repo, "quick")
-                importlib.import_module("gtirb_static.rules.%s" % p.lower()).run(chk)
-                wf(chk)
+                chk = run_rules(p, repo, "quick")
                 v = [x for x in chk.violations() if (p, x.rule, x.construct) not in known]
                 for x in v:
                     out.append((p, x.rule, x.construct, x.message, x.loc.replace(tmp + "/", "")))
